@@ -129,13 +129,13 @@ func c05Generate(c *mon.Ctx) {
 	for i, pv := range pool.All {
 		reprs := gen.StructuredReprs(pv.P.IsInf())
 
-		for k := 5; k <= 7; k++ {
+		for k := 5; k <= 8; k++ {
 			nat := mon.MkNatElemCase(pv, k)
 			b := mon.MkElemCase(pv, reprs[(i+k)%len(reprs)])
 			rel := "unrelated"
 
 			switch {
-			case k <= 6 && pv.P.IsInf():
+			case (k <= 6 || k == 8) && pv.P.IsInf():
 				rel = "P"
 			case k == 7 && !pv.P.IsInf() && pv.P.Equal(oracle.G()):
 				rel = "P"
